@@ -1800,9 +1800,72 @@ fn gen_c20_many_params(r: &mut Rng) -> Plan {
     p
 }
 
+/// A client that still believes in the types it bound for an id executes it without types after
+/// the shim has handed the same (still open) id out again for a statement with another
+/// parameter count: whatever the server makes of the stale belief, it must not panic.
+fn gen_c20_stale_after_reprepare(r: &mut Rng) -> Plan {
+    let n1 = 1 + r.usize_below(4);
+    let n2 = match r.below(3) {
+        0 => n1 + 1 + r.usize_below(4),
+        1 => n1.saturating_sub(1),
+        _ => n1,
+    };
+    let id = *r.pick(&[1u32, 0, u32::MAX, 42]);
+    let prep = |n: usize| Cmd {
+        seq: 0,
+        kind: CmdKind::Prepare(Blob::lit(b"p")),
+        act: Act::Prepare(PrepAct::Reply {
+            id,
+            params: (0..n)
+                .map(|_| ColSpec {
+                    table: Blob::lit(b""),
+                    name: Blob::lit(b"?"),
+                    coltype: 0xfd,
+                    flags: 0,
+                })
+                .collect(),
+            cols: vec![],
+        }),
+    };
+    let exec = |bind: Option<Vec<(u8, u8)>>, n: usize, stale: Option<Vec<(u8, u8)>>| Cmd {
+        seq: 0,
+        kind: CmdKind::Execute {
+            stmt: id,
+            flags: 0,
+            iters: 1,
+            block: ParamBlock {
+                bind,
+                values: (0..n).map(|i| PVal::Int(i as i64)).collect(),
+                raw: None,
+                stale_types: stale,
+            },
+        },
+        act: Act::Program(super::common::simple_ok_program()),
+    };
+    let ty = *r.pick(&[(0x03u8, 0u8), (0x08, 0), (0x01, 0x80)]);
+    let mut cmds = vec![prep(n1), exec(Some(vec![ty; n1]), n1, None)];
+    if r.coin() {
+        cmds.push(exec(None, n1, None));
+    }
+    cmds.push(prep(n2));
+    // the client encodes the values with the types it believes in (stale_types)
+    cmds.push(exec(None, n2, Some(vec![ty; n2.max(1)])));
+    cmds.push(Cmd {
+        seq: 0,
+        kind: CmdKind::Ping,
+        act: Act::None,
+    });
+    let mut p = Plan::basic(cmds);
+    p.reads = gen_reads(r);
+    p
+}
+
 fn gen_c20(r: &mut Rng, job: u64) -> Plan {
     if job % 40_000 == 39_999 {
         return gen_c20_many_params(r);
+    }
+    if job % 300 == 299 {
+        return gen_c20_stale_after_reprepare(r);
     }
     // (b) systematic sweep of all command payloads of length <= 3 over a 12-byte alphabet
     const ALPHA: [u8; 12] = [0x00, 0x01, 0x02, 0x03, 0x04, 0x0e, 0x16, 0x17, 0x18, 0x19, 0x1f, 0xff];
